@@ -337,7 +337,10 @@ def gen_wide_tx(rng, classes, depth=0):
         return [rng.choice(["Ls", "Sq"]), rng.choice(["int", "str", "MyInt"])]
     if r < 0.92:
         # a condition whose bound is itself value-dependent (list[int], tuple[int, str], Literal[...])
-        b = rng.choice([["Ls", "int"], ["Ls", "str"], ["T", "int", "str"], ["Sq", "int"], ["L", 1, 2, 3]])
+        b = rng.choice([["Ls", "int"], ["Ls", "str"], ["T", "int", "str"], ["Sq", "int"], ["L", 1, 2, 3],
+                        # ... or a combination that has such members
+                        ["U", ["Ls", "int"], "str"], ["U", ["T", "int", "str"], ["Ls", "str"]], ["U", ["L", 1, 2], "str"],
+                        ["U", ["Ls", "int"], "str"]])
         return ["D", b, rng.choice(["truthy", "always", "falsy"])]
     if r < 0.95:
         return rng.choice([["SW", "a"], ["EW", "a"], ["Rx", "^a"], ["HK", "k"]])
